@@ -72,6 +72,8 @@ def make_classes(shape):
                 def save_instance_state(self, out_state, save_context, _members=tuple(spec['manual'])):
                     super(self._pv_manual_owner, self).save_instance_state(out_state, save_context)
                     self.save_members(_members, out_state)
+                    # ... and a note of its own in the user metadata of the saved state (next to what the library keeps there)
+                    persistence.Savable.set_custom_meta(out_state, 'pv_note', 'kept')
 
                 def load_instance_state(self, saved_state, load_context, _members=tuple(spec['manual'])):
                     super(self._pv_manual_owner, self).load_instance_state(saved_state, load_context)
@@ -173,6 +175,9 @@ def enumerate_cases(tier, scope):
                     if cls == 'C2':
                         members['m2'] = ['savable', {'cls': 'D', 'members': {'m0': ['method', 'meth_a'], 'm3': ['future', fut]}}]
                     yield {'shape': shape, 'instance': {'cls': cls, 'members': members, 'extra': {'zz': 1}}, 'loader': loader, 'load_with': load_with}
+                    if fut == FUTURES[1] and cls == 'C2':
+                        yield {'shape': shape, 'instance': {'cls': cls, 'members': members, 'extra': {'zz': 1}}, 'loader': loader, 'load_with': load_with, 'recreate': True}
+
                     if loader == 'global' and load_with == 'ctx':
                         yield {'shape': shape, 'instance': {'cls': cls, 'members': members, 'extra': {'zz': 1}}, 'loader': loader, 'load_with': load_with, 'reset_global': True}
     # another object of the family saved and loaded first (different loader configuration, caller-owned context reused);
@@ -455,6 +460,12 @@ def execute(case):
                 save_ctx = persistence.LoadSaveContext(loader=custom)
                 if case.get('ctx_extend'):
                     save_ctx = save_ctx.copyextend(note='extended')  # extending a context keeps its loader
+            elif case['loader'] == 'persave+sameglobal':
+                # the loader is installed globally AND handed over for this save (so it is recorded in the saved state);
+                # when the state is loaded it is no longer the global one, and the context names no loader: the recorded
+                # one is in charge, of nested objects too
+                loaders.set_object_loader(custom)
+                save_ctx = persistence.LoadSaveContext(loader=custom)
             elif case['loader'] == 'persave+global':
                 # a different loader (of a subclass) is installed globally: the one recorded at save must still win
                 loaders.set_object_loader(loaders_h.OtherLoader())
@@ -498,6 +509,8 @@ def execute(case):
                         if hasattr(gen_classes, cname):
                             delattr(gen_classes, cname)
                     classes = make_classes(shape)
+                if case['loader'] == 'persave+sameglobal':
+                    loaders.set_object_loader(prev_global)
                 if case.get('reset_global') and case['loader'] == 'global' and case['load_with'] == 'ctx':
                     # the loader that named everything at save time (it was the global one) is not global any more when the
                     # state is loaded, but it is handed over in the load context: it is in charge of nested objects too
@@ -520,7 +533,11 @@ def execute(case):
                     except BaseException as exc:  # noqa: BLE001
                         v('strict-loader-error-type', f'{type(exc).__name__}: {str(exc)[:160]}')
                 try:
-                    new = persistence.Savable.load(state, load_ctx)
+                    if case.get('recreate') and not case.get('tamper'):
+                        # the class is known to the caller: recreated directly, the context only says where futures live
+                        new = classes[case['instance']['cls']].recreate_from(state, load_ctx)
+                    else:
+                        new = persistence.Savable.load(state, load_ctx)
                     err = None
                 except BaseException as exc:  # noqa: BLE001
                     new, err = None, exc
@@ -538,10 +555,10 @@ def execute(case):
                         if fut.get_loop() is not want_loop:
                             v('future-on-wrong-loop', f'{where}: the restored future ({fut_state(fut)[0]}) lives on the loop that was current while loading, not on the loop given in the load context')
                             break
-                    if case['loader'] != 'default' and loaders_h.TagLoader.owned_loads <= before_loads:
+                    if case['loader'] != 'default' and not case.get('recreate') and loaders_h.TagLoader.owned_loads <= before_loads:
                         v('custom-loader-not-used', 'the class was not resolved through the custom loader')
                     if not viol:
-                        if case.get('reset_global') and case['loader'] == 'global' and case['load_with'] == 'ctx':
+                        if (case.get('reset_global') and case['loader'] == 'global' and case['load_with'] == 'ctx') or case['loader'] == 'persave+sameglobal':
                             loaders.set_object_loader(custom)  # save again under the configuration of the first save
                         try:
                             again = new.save(save_ctx)
